@@ -2,13 +2,13 @@
 From GocqlV Require Import Lib.Base C01.Model C01.Spec C01.Proofs1 C01.Proofs2 C01.Proofs2b C01.Proofs2c C01.Proofs3
   C01.Proofs4 C01.Proofs5 C01.Proofs6 C01.Proofs7.
 
-Lemma reach_inv n ls s : 0 < n -> run (init n) ls = Some s -> honest (init n) ls -> body_errors_fatal ls ->
+Lemma reach_inv n ls s : 0 < n -> run (init n) ls = Some s -> honest (init n) ls ->
   Inv0 s /\ Inv1 s /\ Inv2 s.
-Proof. intros Hn Hr Hh Hb. eapply inv012_reachable; eauto. apply env_ok_of; auto. Qed.
+Proof. intros Hn Hr Hh. eapply inv012_reachable; eauto using env_ok_of. Qed.
 
-Lemma own_response n ls s c t : 0 < n -> run (init n) ls = Some s -> honest (init n) ls -> body_errors_fatal ls ->
+Lemma own_response n ls s c t : 0 < n -> run (init n) ls = Some s -> honest (init n) ls ->
   handed (callers s c) t -> t = c.
-Proof. intros Hn Hr Hh Hb. destruct (reach_inv n ls s Hn Hr Hh Hb) as [_ [I1 _]]. apply (j_handed s I1). Qed.
+Proof. intros Hn Hr Hh. destruct (reach_inv n ls s Hn Hr Hh) as [_ [I1 _]]. apply (j_handed s I1). Qed.
 
 Lemma due_holds s id t : Inv1 s -> answer_due s id t ->
   holds (callers s t) /\ sid (callers s t) = id /\ In id (held s) /\ forall c, step s (Alloc c id) = None.
